@@ -221,7 +221,7 @@ def parse_ov(text):
 
 def ov_equal(a, b):
     if isinstance(a, A) and isinstance(b, A):
-        return a.x == b.x or abs(a.x - b.x) * 10**9 <= abs(b.x)
+        return a.x == b.x or abs(a.x - b.x) * 10**9 <= abs(b.x) or abs(a.x - b.x) * 10**15 <= 1
     if isinstance(a, (list, tuple)) and isinstance(b, (list, tuple)):
         return len(a) == len(b) and all(ov_equal(x, y) for x, y in zip(a, b))
     if isinstance(a, bool) != isinstance(b, bool):
